@@ -185,6 +185,10 @@ struct Exec
 		if (api_depth() > 0) f03("inline: handler " + id + " invoked from inside an initiating call");
 		if (stopped_model && t > stop_t) f02(fmt("stop: handler %s ran at %lld, later than stop() at %lld, before run() returned", id.c_str(), (long long)t, (long long)stop_t));
 		if (!in_run) f02("run: handler " + id + " executed outside run()");
+		// the clock moves only when no handler is ready: whatever became ready before t must have run before the clock reached t
+		for (size_t i = 0; i < waits.size(); ++i) { Wait const& w = waits[i]; if (w.ran || w.aborted_by_op || w.abort_t >= 0) continue; int64_t ready = std::max(w.expiry, w.start);
+			if (ready < t) { f02(fmt("jump: the clock is at %lld in handler %s although wait #%zu on T%d has been ready since %lld and has not run (the clock moved while a handler was ready, or past the earliest expiry)", (long long)t, id.c_str(), i, w.timer, (long long)ready)); break; } }
+		for (size_t i = 0; i < posts.size(); ++i) if (!posts[i].ran && posts[i].t < t) { f02(fmt("jump: the clock is at %lld in handler %s although item #%zu posted at %lld has not run", (long long)t, id.c_str(), i, (long long)posts[i].t)); break; }
 		handler_trace.push_back(fmt("%s@%lld:%s", id.c_str(), (long long)t, ecs(ec).c_str()));
 		log.push_back(fmt("@%lld   handler %s %s", (long long)t, id.c_str(), ecs(ec).c_str()));
 		if (ctx) ++ctx->R.transitions;
